@@ -415,6 +415,46 @@ func streamerBooksBeforeSend(p *packages.Package) []string {
 	return res
 }
 
+// the lease-renewal ticker of MessageStreamer.Go: for every `time.NewTicker(x)` the floor (ns) that a
+// preceding `if x < C { x = C }` guarantees for its argument; 0 when there is no such guard
+func streamerTickerFloors(p *packages.Package) []int64 {
+	fd := funcDecl(p, "MessageStreamer", "Go")
+	var res []int64
+	if fd == nil {
+		problem("MessageStreamer.Go not found")
+		return res
+	}
+	floors := map[string]int64{}
+	ast.Inspect(fd.Body, func(n ast.Node) bool {
+		switch x := n.(type) {
+		case *ast.IfStmt:
+			be, ok := x.Cond.(*ast.BinaryExpr)
+			if !ok || be.Op != token.LSS || len(x.Body.List) != 1 {
+				return true
+			}
+			as, ok := x.Body.List[0].(*ast.AssignStmt)
+			if !ok || len(as.Lhs) != 1 || len(as.Rhs) != 1 || exprName(as.Lhs[0]) != exprName(be.X) {
+				return true
+			}
+			tc, ok1 := p.TypesInfo.Types[be.Y]
+			ta, ok2 := p.TypesInfo.Types[as.Rhs[0]]
+			if ok1 && ok2 && tc.Value != nil && ta.Value != nil {
+				c, _ := constant.Int64Val(constant.ToInt(tc.Value))
+				a, _ := constant.Int64Val(constant.ToInt(ta.Value))
+				if a >= c {
+					floors[exprName(be.X)] = c
+				}
+			}
+		case *ast.CallExpr:
+			if exprName(x.Fun) == "time.NewTicker" && len(x.Args) == 1 {
+				res = append(res, floors[exprName(x.Args[0])])
+			}
+		}
+		return true
+	})
+	return res
+}
+
 // every pruneServiceFor("name", func(params) { return actions.NewX(params) }) registration: (name, constructor)
 func pruneServices(p *packages.Package) []string {
 	var res []string
@@ -797,6 +837,13 @@ func main() {
 	fmt.Fprintf(&out, "/-- the transaction closures of GetSubscriptionMessages.execute that select candidates: do they record the attempt too -/\ndef pullTxShape : List String := %s\n", q(pullTxShape(act)))
 	fmt.Fprintf(&out, "/-- every `case <-pubNotify` of MessageStreamer.Go: does it take a new awaiter first -/\ndef streamerRenewals : List String := %s\n", q(streamerRenewals(act)))
 	fmt.Fprintf(&out, "/-- every Send / SendBatch of the sender goroutine of MessageStreamer.Go: are the fetched deliveries entered into `pending` before it -/\ndef streamerBooksBeforeSend : List String := %s\n", q(streamerBooksBeforeSend(act)))
+	{
+		var fl []string
+		for _, f := range streamerTickerFloors(act) {
+			fl = append(fl, fmt.Sprint(f))
+		}
+		fmt.Fprintf(&out, "/-- for every time.NewTicker(x) of MessageStreamer.Go: the floor (ns) an `if x < C { x = C }` before it guarantees (0: none) -/\ndef streamerTickerFloors : List Int := [%s]\n", strings.Join(fl, ", "))
+	}
 	fmt.Fprintf(&out, "/-- every `delete(pending, id)` of the reader goroutine of MessageStreamer.Go: is it under `if pending[id] == <entry snapshotted before the database call>` -/\ndef streamerReaderReleases : List String := %s\n", q(streamerReaderReleases(act)))
 
 	out.WriteString("\n/-- List handler ↦ literal appended to the project to form the name prefix -/\n")
